@@ -4,12 +4,14 @@ EXTENDS GenTd
 O1 == NGraphs
 O2 == O1 + NAtoms
 O3 == O2 + NRandDocs
-Count == O3 + Len(Memberless)
+O4 == O3 + Len(Memberless)
+Count == O4 + NNameOrder
 ItemAt(g) ==
   IF g <= O1 THEN GraphAt(g)
   ELSE IF g <= O2 THEN AtomAt(g - O1)
   ELSE IF g <= O3 THEN RandDocAt(g - O2)
-  ELSE MemberlessAt(g - O3)
+  ELSE IF g <= O4 THEN MemberlessAt(g - O3)
+  ELSE NameOrderAt(g - O4)
 VARIABLE n
 INSTANCE GenBase
 =============================================================================
